@@ -120,13 +120,16 @@ def main(argv):
     violations, known_hits, undecided, lines = [], [], [], []
     obligations = []
     functions = set()
+    frame_functions = set()
     inlined, via = set(), set()
     solver_seconds = 0.0
     by_solver = {}
 
     # ---------------- (a) deductive obligations
     if cfg.get("contracts"):
-        registry = load_contract_modules(prog, cfg["contracts"])
+        # every contract module is loaded: a contract takes part in each property its `props` names
+        all_mods = sorted(f[:-3] for f in os.listdir(os.path.join(VERIF, "contracts")) if f.startswith(("c", "lexer")) and f.endswith(".py") and f[:-3] not in ("__init__",))
+        registry = load_contract_modules(prog, [m for m in all_mods if m not in ("base", "lib")])
         reg = [C for C in registry if pid in C.props]
         V = Verifier(prog, registry, INTRINSICS, loop_handler)
         _G.update(V=V, reg=reg, timeout=20 if tier == "quick" else 120, pid=pid, tier=tier, seed=seed)
@@ -146,6 +149,8 @@ def main(argv):
     assumed_callees = set()
     if cfg.get("contracts"):
         assumed_callees = {C.fn for C in registry if C.modular and not C.props}
+        for C in reg:
+            assumed_callees.update((getattr(C.cls, "stub_calls", None) or {}).keys())
 
     # ---------------- (b) frame obligations
     frame_obs = []
@@ -154,7 +159,7 @@ def main(argv):
         frame_obs = frames.run(prog, pid, cfg["frames"])
         for ob in frame_obs:
             obligations.append(ob)
-            functions.update(ob.get("functions", []))
+            frame_functions.update(ob.get("functions", []))
             if ob["status"] == "discharged":
                 by_solver["frame-analysis"] = by_solver.get("frame-analysis", 0) + 1
 
@@ -286,6 +291,7 @@ def main(argv):
         checker_cmd="cd /verif && ./check %s %s" % (pid, tier),
         trusted_base=P.TRUSTED_BASE + cfg.get("trusted", []),
         functions_under_contract=sorted(functions),
+        functions_under_frame_obligations=sorted(frame_functions - functions),
         inlined_callees=sorted(inlined - functions), callees_via_contract=sorted(via),
         assumed_callee_contracts=sorted(v for v in via if v in assumed_callees),
         discharged_by=by_solver, solver_seconds=round(solver_seconds, 2),
